@@ -1,2 +1,205 @@
-(** C33 — draft *)
-From Verif Require Import Base.Prelude Model.C33.
+(** C33 — Health and readiness endpoints report the true aggregate state.  Property theorems
+    only (model: Model/C33.v, proofs: Proofs/C33.v).
+
+    [atomic_response ready s] is the answer of HealthReadyHandler to /ready ([ready = true]) or
+    /health served in state [s] with nothing else happening; [diag_response ops ready ps pr] is
+    the answer of a request whose snapshot of the checker list saw the first [ps] operations of
+    [ops] and whose i-th checker call saw the first [nth i pr] operations.  [std l]: every check
+    of [l] answers "pass" or "fail" (true for ReadyGate — C33_gate_histories_are_std — and for
+    the startup and scheduler-pulse checkers). *)
+From Verif Require Import Base.Prelude Model.C33 Proofs.C33.
+From Coq Require Import Permutation Sorted.
+Local Open Scope N_scope.
+
+(** ** /ready *)
+Theorem C33_gate_histories_are_std :
+  forall ops, forallb gate_op ops = true -> std (s_ready (run_ops ops)).
+Proof. exact gate_ops_std. Qed.
+Print Assumptions C33_gate_histories_are_std.
+
+(** 200 exactly when every registered ready check currently passes (for a ReadyGate: its last
+    signal was Ready()) *)
+Theorem C33_ready_200_iff_all_ready :
+  forall s, std (s_ready s) ->
+    (r_code (atomic_response true s) = 200 <-> all_pass (s_ready s) = true).
+Proof. exact ready_200_iff. Qed.
+Print Assumptions C33_ready_200_iff_all_ready.
+
+(** ... with body status "ready" and no checks listed; otherwise 503 "starting" listing exactly
+    the checks that do not pass (as a multiset: a permutation of them), ordered by name *)
+Theorem C33_ready_503_lists_exactly_unready :
+  forall s, std (s_ready s) ->
+    (r_code (atomic_response true s) = 200 ->
+       r_checks (atomic_response true s) = [] /\ r_status (atomic_response true s) = 0) /\
+    (all_pass (s_ready s) = false ->
+       r_code (atomic_response true s) = 503 /\ r_status (atomic_response true s) = 1 /\
+       Permutation (r_checks (atomic_response true s)) (not_passing (s_ready s)) /\
+       StronglySorted (fun a b => k_name a <= k_name b) (r_checks (atomic_response true s))).
+Proof. intros s Hs. split; [apply ready_200_body | apply ready_503_lists; exact Hs]. Qed.
+Print Assumptions C33_ready_503_lists_exactly_unready.
+
+(** FULL STATEMENT without [std] (refuted): a ready check answering a status that is neither
+    pass nor fail after a failing one makes /ready answer 200.  Known finding
+    check-status-neither-pass-nor-fail, replayed on the real handler. *)
+Theorem C33_ready_200_iff_all_pass_refuted :
+  let s := {| s_ready := [ {| k_name := 1; k_status := ST_FAIL; k_msg := M_NOT_READY |};
+                           {| k_name := 2; k_status := 3; k_msg := 10 |} ]; s_health := [] |} in
+  all_pass (s_ready s) = false /\ r_code (atomic_response true s) = 200.
+Proof. vm_compute. split; reflexivity. Qed.
+Print Assumptions C33_ready_200_iff_all_pass_refuted.
+
+(** ** /health *)
+(** the aggregate is "pass" iff every check passes — for ALL statuses *)
+Theorem C33_aggregate_pass_iff_all_pass : forall l, overall l = ST_PASS <-> all_pass l = true.
+Proof. exact overall_pass_iff. Qed.
+Print Assumptions C33_aggregate_pass_iff_all_pass.
+
+(** FULL STATEMENT: forall s, r_code (atomic_response false s) = 200 <-> all_pass (s_health s) = true.
+    Refuted by the faithful model: [bolt: fail; query: status ""] answers 200 "healthy" (the
+    aggregate is the LAST non-pass status and the handler only tests == "fail"). *)
+Theorem C33_health_200_iff_all_pass_refuted :
+  let s := {| s_ready := []; s_health := [ {| k_name := 1; k_status := ST_FAIL; k_msg := 10 |};
+                                           {| k_name := 2; k_status := 2; k_msg := M_EMPTY |} ] |} in
+  all_pass (s_health s) = false /\ r_code (atomic_response false s) = 200 /\
+  r_message (atomic_response false s) = M_HEALTHY.
+Proof. vm_compute. repeat split; reflexivity. Qed.
+Print Assumptions C33_health_200_iff_all_pass_refuted.
+
+(** strongest true weakening: when every check answers pass or fail *)
+Theorem C33_health_200_iff_all_pass_partial :
+  forall s, std (s_health s) ->
+    (r_code (atomic_response false s) = 200 <-> all_pass (s_health s) = true).
+Proof. exact health_200_iff. Qed.
+Print Assumptions C33_health_200_iff_all_pass_partial.
+
+(** 503: the message is the message ("fail" if empty) of a failing check with the LEAST NAME,
+    which is the first failing entry of the listed checks (listed: failing first, then by name) *)
+Theorem C33_health_503_first_failing_message :
+  forall s, r_code (atomic_response false s) = 503 ->
+    exists c, In c (s_health s) /\ k_status c = ST_FAIL /\
+              (forall d, In d (s_health s) -> k_status d = ST_FAIL -> k_name c <= k_name d) /\
+              r_message (atomic_response false s) = msg_or_fail c /\
+              exists pre post, r_checks (atomic_response false s) = pre ++ c :: post /\
+                               forall d, In d pre -> k_status d <> ST_FAIL.
+Proof. exact health_503_message. Qed.
+Print Assumptions C33_health_503_first_failing_message.
+
+(** "first" is NOT registration order: [query: fail "unreachable"] registered before
+    [bolt: fail "not open"] — the message is bolt's. *)
+Theorem C33_health_message_not_registration_order :
+  let s := {| s_ready := []; s_health := [ {| k_name := 2; k_status := ST_FAIL; k_msg := 10 |};
+                                           {| k_name := 1; k_status := ST_FAIL; k_msg := 11 |} ] |} in
+  r_message (atomic_response false s) = 11.
+Proof. vm_compute. reflexivity. Qed.
+Print Assumptions C33_health_message_not_registration_order.
+
+(** HEALTH_READY.md's rule "the first failing check that HAS a non-empty message" is not what
+    the code does: [bolt: fail ""; query: fail "unreachable"] answers "fail". *)
+Theorem C33_health_message_doc_rule_refuted :
+  let s := {| s_ready := []; s_health := [ {| k_name := 1; k_status := ST_FAIL; k_msg := M_EMPTY |};
+                                           {| k_name := 2; k_status := ST_FAIL; k_msg := 10 |} ] |} in
+  r_message (atomic_response false s) = M_FAIL.
+Proof. vm_compute. reflexivity. Qed.
+Print Assumptions C33_health_message_doc_rule_refuted.
+
+(** ** Concurrency *)
+(** a request during which no operation takes effect is answered atomically *)
+Theorem C33_quiescent_request_is_atomic :
+  forall ops ready p,
+    diag_response ops ready p (repeat p (length (checks_of ready (state_at ops p))))
+    = atomic_response ready (state_at ops p).
+Proof. exact diag_atomic. Qed.
+Print Assumptions C33_quiescent_request_is_atomic.
+
+(** under arbitrary interleaving: the answer is computed from one TRUE reading of every
+    snapshotted checker, taken at its own position *)
+Theorem C33_each_result_is_a_true_reading :
+  forall ops ready ps pr i,
+    length pr = length (checks_of ready (state_at ops ps)) -> (i < length pr)%nat ->
+    nth i (diag_results ops ready ps pr) dummy
+    = nth i (checks_of ready (state_at ops (nth i pr 0%nat))) dummy.
+Proof. exact diag_results_nth. Qed.
+Print Assumptions C33_each_result_is_a_true_reading.
+
+(** FULL STATEMENT (refuted): every answer equals [atomic_response] of SOME state between
+    invocation and response:
+      forall ops ready inv resp ps pr, valid_expl ops ready inv resp ps pr = true ->
+        lin_ok ops ready inv resp (diag_response ops ready ps pr) = true.
+    Witness 1: gates 1,2 not ready (a pass-only check between them); the request reads gate 1,
+    then Ready(1), Ready(2) take effect, then it reads gate 2: 503 listing exactly gate 1 — the
+    unready sets were {1,2}, {2}, {}.  Witness 2: the request snapshots [p; gate 2]; gate 3 is
+    registered and gate 2 signalled; it reads gate 2: 200, but never were all gates ready.
+    Both replayed on the real handler (known finding snapshot-of-checks-not-atomic). *)
+Theorem C33_linearizable_refuted :
+  (let ops := [ORegGate 1; ORegReady {| k_name := 9; k_status := ST_PASS; k_msg := M_EMPTY |}; ORegGate 2;
+               OReady 0; OReady 2] in
+   valid_expl ops true 3 5 3 [3; 3; 5]%nat = true /\
+   r_code (diag_response ops true 3 [3; 3; 5]%nat) = 503 /\
+   map k_name (r_checks (diag_response ops true 3 [3; 3; 5]%nat)) = [1] /\
+   lin_ok ops true 3 5 (diag_response ops true 3 [3; 3; 5]%nat) = false) /\
+  (let ops := [ORegReady {| k_name := 9; k_status := ST_PASS; k_msg := M_EMPTY |}; ORegGate 2;
+               ORegGate 3; OReady 1] in
+   valid_expl ops true 2 4 2 [2; 4]%nat = true /\
+   r_code (diag_response ops true 2 [2; 4]%nat) = 200 /\
+   lin_ok ops true 2 4 (diag_response ops true 2 [2; 4]%nat) = false).
+Proof. vm_compute. repeat split; reflexivity. Qed.
+Print Assumptions C33_linearizable_refuted.
+
+(** The weakened claim that does hold for /ready when the operations overlapping the request
+    are only Ready() signals (no Unready, no registration): the status code is linearisable —
+    a 200 answer IS the atomic answer at the response point, a 503 answer means the atomic
+    answer at the snapshot point was 503 too, and every listed gate was not ready then.
+    (With a concurrent Unready not even the code is: read g1 ready; g1.Unready(); g2.Ready();
+    read g2 ready -> 200.  Then only C33_each_result_is_a_true_reading remains.) *)
+Theorem C33_ready_only_window_code_linearizable :
+  forall ops inv resp ps pr,
+    valid_expl ops true inv resp ps pr = true ->
+    ready_window ops ps resp ->
+    std (s_ready (state_at ops ps)) ->
+    let r := diag_response ops true ps pr in
+    (r_code r = 200 -> r = atomic_response true (state_at ops resp)) /\
+    (r_code r = 503 ->
+       r_code (atomic_response true (state_at ops ps)) = 503 /\
+       forall c, In c (r_checks r) ->
+         exists c0, In c0 (s_ready (state_at ops ps)) /\ k_name c0 = k_name c /\ k_status c0 = ST_FAIL).
+Proof. exact ready_only_window. Qed.
+Print Assumptions C33_ready_only_window_code_linearizable.
+
+Theorem C33_unready_breaks_code_linearizability :
+  let ops := [ORegGate 1; ORegGate 2; OReady 0; OUnready 0; OReady 1] in
+  valid_expl ops true 3 5 3 [3; 5]%nat = true /\
+  r_code (diag_response ops true 3 [3; 5]%nat) = 200 /\
+  lin_ok ops true 3 5 (diag_response ops true 3 [3; 5]%nat) = false.
+Proof. vm_compute. repeat split; reflexivity. Qed.
+Print Assumptions C33_unready_breaks_code_linearizability.
+
+(** ** The concrete checkers *)
+(** task-scheduler pulse: fails iff a run is scheduled and due more than the threshold ago
+    (a zero When passes; a future When passes; exactly the threshold passes) *)
+Theorem C33_pulse_fails_iff_overdue :
+  forall w now thr, pulse_status (pulse_check w now thr) = ST_FAIL <-> pulse_should_fail w now thr = true.
+Proof. exact pulse_fail_iff. Qed.
+Print Assumptions C33_pulse_fails_iff_overdue.
+
+(** shards gate: ready passes iff Finish was called and never with an error; the shards
+    health check passes iff no shard failed to load — for every operation sequence *)
+Theorem C33_startup_ready_passes_iff_finished_without_error :
+  forall ops, fst (sl_ready (fold_left sl_apply ops sl_init)) = ST_PASS <-> sl_ready_should_pass ops = true.
+Proof. exact startup_ready_iff. Qed.
+Print Assumptions C33_startup_ready_passes_iff_finished_without_error.
+
+Theorem C33_startup_health_passes_iff_no_shard_failed :
+  forall ops, fst (sl_health (fold_left sl_apply ops sl_init)) = ST_PASS <-> sl_health_should_pass ops = true.
+Proof. exact startup_health_iff. Qed.
+Print Assumptions C33_startup_health_passes_iff_no_shard_failed.
+
+(** Non-vacuity: three gates, two signalled: 503 listing the third; after its signal 200; after
+    an Unready 503 again listing that gate. *)
+Example C33_nonvacuous :
+  let ops := [ORegGate 2; ORegGate 1; ORegGate 3; OReady 0; OReady 1; OReady 2; OUnready 1] in
+  map k_name (r_checks (atomic_response true (state_at ops 5))) = [3] /\
+  r_code (atomic_response true (state_at ops 5)) = 503 /\
+  r_code (atomic_response true (state_at ops 6)) = 200 /\
+  map k_name (r_checks (atomic_response true (state_at ops 7))) = [1] /\
+  forallb gate_op ops = true.
+Proof. vm_compute. repeat split; reflexivity. Qed.
